@@ -115,6 +115,8 @@ def gen_probs(rnd, k):
 
 def gen_cfg(rnd, lp_names=None, np_names=None, with_np=None, arm_kinds=("int", "str", "float"), binarizer=False,
             lp=None, allow_probs=True, arms_lo=2, arms_hi=6, scale=False):
+    if TIER_SCALE > 1 and rnd.random() < 0.3:
+        arms_hi = min(arms_hi + 2, 8)               # thorough tier: more arms = more shared-memory fit tasks
     kind, arms, spare = gen_arms(rnd, arm_kinds, arms_lo, arms_hi)
     lp = lp or gen_lp(rnd, names=lp_names, binarizer=binarizer, scale=scale)
     np_ = None
@@ -191,6 +193,8 @@ def gen_history(rnd, cfg, spare, d, regime, n_ops, arm_changes=True, warm=False,
     from .world import is_contextual
     if TIER_SCALE > 1 and rnd.random() < 0.5:
         n_ops = min(30, n_ops * TIER_SCALE)
+    if TIER_SCALE > 1 and rnd.random() < 0.3:      # thorough tier: larger batches and query blocks in some runs
+        max_rows, max_m = max_rows * 2, max_m * 2
     ctxl = is_contextual(cfg)
     arms = list(cfg["arms"])
     spare = list(spare)
